@@ -25,6 +25,14 @@ type Outcome struct {
 	Sig      uint64 `json:"sig"`      // signature of the run's scenario (document, config, plan family) for cross-run de-duplication
 	Sample   interface{} `json:"sample,omitempty"`
 	Scenario interface{} `json:"scenario,omitempty"` // human-readable decode of the tape (always filled on violation)
+	Others   []Failure   `json:"others,omitempty"`   // further distinct (class, locator) failures of the same run
+}
+
+// Failure is one violated check inside a run.
+type Failure struct {
+	Class   string `json:"class"`
+	Locator string `json:"loc"`
+	Detail  string `json:"detail"`
 }
 
 // Env is handed to a scenario for one run.
@@ -42,7 +50,7 @@ type Env struct {
 	BeforeOp func()             // flushes crash-safe recording (set by the worker when needed)
 	PhaseFn  func(name string) // tells the parent which phase a process death belongs to
 
-	firstViolation *Outcome
+	failures []Failure
 	evals    int
 	distinct map[uint64]struct{}
 }
@@ -166,21 +174,35 @@ func FirstLibFrame(stack string, afterPanic bool) string {
 
 // Violation helpers ---------------------------------------------------------
 
+// Fail records a violated check. A run may report several distinct
+// (class, locator) pairs so that one frequent failure cannot hide another.
 func (e *Env) Fail(class, locator, detail string) {
-	if e.firstViolation == nil {
-		e.firstViolation = &Outcome{Class: class, Locator: locator, Detail: detail}
+	for _, f := range e.failures {
+		if f.Class == class && f.Locator == locator {
+			return
+		}
+	}
+	if len(e.failures) < MaxFailuresPerRun {
+		e.failures = append(e.failures, Failure{class, locator, detail})
 	}
 }
 
-func (e *Env) Failed() bool { return e.firstViolation != nil }
+const MaxFailuresPerRun = 8
+
+func (e *Env) Failed() bool { return len(e.failures) > 0 }
+
+// FailureBudgetLeft reports whether a scenario that can continue after a
+// failure should keep looking for different ones.
+func (e *Env) FailureBudgetLeft() bool { return len(e.failures) < MaxFailuresPerRun }
 
 func (e *Env) Finish(sig uint64, sample interface{}, scenario interface{}) Outcome {
 	o := Outcome{Evals: e.evals, Distinct: len(e.distinct), Sig: sig}
-	if e.firstViolation != nil {
-		o.Class, o.Locator, o.Detail = e.firstViolation.Class, e.firstViolation.Locator, e.firstViolation.Detail
+	if len(e.failures) > 0 {
+		o.Class, o.Locator, o.Detail = e.failures[0].Class, e.failures[0].Locator, e.failures[0].Detail
+		o.Others = e.failures[1:]
 		o.Scenario = scenario
 	}
-	if e.WantSample || e.firstViolation != nil {
+	if e.WantSample || len(e.failures) > 0 {
 		o.Sample = sample
 	}
 	return o
